@@ -14,6 +14,7 @@ for every reachable circuit; there is no bound on the number of blocks, inputs o
 import EdzedModel.Wiring
 import EdzedProofs.Wiring
 import EdzedModel.Gen.TranslatedSig
+import EdzedModel.Gen.TranslatedVblk
 
 namespace Edzed.Wiring
 
@@ -359,6 +360,46 @@ theorem bad_refs_fail_block {c c' : Circ} {b : String} (hb : (c.kind b).isSome)
     (h : finalizeBlk c b = (c', none)) : ∀ r ∈ allRefs (c.inputs b), r.okShape = true :=
   ((finalizeBlk_fb hb h).ok rfl).2.1
 
+/-- `foreign_input_refused`: a circuit in which ANY input of ANY CBlock -- a single input, a member
+    of a named or of the unnamed group, the input of a `Not` -- is a block object of another
+    circuit (whatever its name, also one no block of this circuit has) or UNDEF cannot be
+    finalized: `finalize()` (hence the start) fails -/
+theorem foreign_input_refused {c : Circ} (hr : Reach c) (hf : c.finalized = false)
+    (b : String) (cls : CCls) (hb : c.kind b = some (.c cls)) (r : Ref)
+    (hm : r ∈ allRefs (c.inputs b)) (hbad : r.okShape = false) : (finalize c).2 ≠ none := by
+  intro hnone
+  unfold finalize at hnone
+  rw [if_neg (by simp [hf])] at hnone
+  split at hnone
+  · cases hnone
+  · next c1 h1 =>
+    have rs := (resolveSlots_rs _ _ _ _ _ h1).1
+    have hin := resolveSlots_inputs _ _ _ _ _ h1 b (isSome_of_kind hb)
+    split at hnone
+    · cases hnone
+    · next c2 h2 =>
+      have := finalizeCore_shapes (rs.wf (reach_good hr).wf) h2 b cls (rs.kind b _ hb) r
+        (by rw [hin]; exact hm)
+      rw [hbad] at this; cases this
+
+/-- every input the resolver lets through is a block of THIS circuit or a Const: the result of
+    `_validate_blk` is never a foreign block, and a block it returns is registered in the circuit
+    it returns -/
+theorem resolved_input_is_local_or_const {c c' : Circ} {r r' : Ref}
+    (h : validateBlk c r = .ok (c', r')) :
+    (∃ n, r' = .obj false n ∧ (c'.kind n).isSome) ∨ ∃ v, r' = .const v := by
+  have vb := validateBlk_vb h
+  have hres := target_resolved r
+  rw [← vb.target] at hres
+  cases r' with
+  | obj f n =>
+    cases f with
+    | false => exact Or.inl ⟨n, rfl, vb.exists_ n rfl⟩
+    | true => cases hres
+  | const v => exact Or.inr ⟨v, rfl⟩
+  | name s => cases hres
+  | val v => cases hres
+
 /-- a destination by name that turns out to be of the wrong kind makes the resolver fail -/
 theorem bad_refs_fail_wrong_kind_by_name {c w : Circ} {e : Option Err} (h : resolve c = (w, e))
     (sl : Slot) (hs : sl ∈ c.slots) (s : String) (hn : sl.ref = .name s) (hS : sl.needS = true)
@@ -592,5 +633,136 @@ theorem translated_valuediff_is_model (e : Expect) (v : Option Nat)
     cases v with
     | none => rfl
     | some k => cases lo <;> cases hi <;> simp [Gen.Tr.sigValueDiff, valueDiff]
+
+/-! #### the resolver `Circuit._validate_blk` (tools/py2lean_vblk.py regenerates the decision tree
+     `Gen.Tr.validateBlkTree` from the current source) -/
+
+def vblkStartsNot (s : String) : Bool :=
+  match s.toList with
+  | '_' :: 'n' :: 'o' :: 't' :: '_' :: _ => true
+  | _ => false
+
+/-- `blk[5:6] == '_'` -/
+def vblkSixth (s : String) : Bool :=
+  match s.toList.drop 5 with
+  | '_' :: _ => true
+  | _ => false
+
+def vblkStr? : Ref → Option String
+  | .name s => some s
+  | .val (.atom (.str s)) => some s
+  | _ => none
+
+/-- what the tests of the resolver see of the string `s` in circuit `c` -/
+def vblkNameArg (c : Circ) (s : String) : Gen.Tr.VArg :=
+  { isStr := true, startsUnderscore := startsUnderscore s, startsNot := vblkStartsNot s,
+    sixthUnderscore := vblkSixth s, isCtrl := s == "_ctrl", nameKnown := (c.kind s).isSome }
+
+/-- what the tests of the resolver see of a reference in circuit `c` -/
+def vblkClassify (c : Circ) (r : Ref) : Gen.Tr.VArg :=
+  match r with
+  | .const _ => { isConst := true }
+  | .obj foreign n => { isBlockObj := true, member := !foreign && (c.kind n).isSome }
+  | r =>
+    match vblkStr? r with
+    | some s => vblkNameArg c s
+    | none => {}
+
+/-- the actions, in terms of the model's constructors -/
+def vblkRun (c : Circ) (r : Ref) : Gen.Tr.VAct → Except Err (Circ × Ref)
+  | .retSelf =>
+    match r with
+    | .const v => .ok (c, .const v)
+    | .obj _ n => .ok (c, .obj false n)
+    | _ => .error .typeError
+  | .mkCtrl =>
+    match vblkStr? r with
+    | some s =>
+      match addBlock c s .s true with
+      | .error e => .error e
+      | .ok c1 => .ok (c1, .obj false s)
+    | none => .error .typeError
+  | .mkNot =>
+    match vblkStr? r with
+    | some s =>
+      match addBlock c s (.c .not) true with
+      | .error e => .error e
+      | .ok c1 =>
+        -- `.connect(blk.removeprefix('_not_'))` on a name that starts with `_not_`
+        match connect c1 s [.name (String.ofList (s.toList.drop 5))] [] with
+        | .error e => .error e
+        | .ok c2 => .ok (c2, .obj false s)
+    | none => .error .typeError
+  | .findblock =>
+    match vblkStr? r with
+    | some s => findblock c s
+    | none => .error .typeError
+  | .mkConst =>
+    match r with
+    | .val .undef => .error .valueError          -- `Const(UNDEF)`
+    | .val v => .ok (c, .const v)
+    | _ => .error .typeError
+  | .raiseValueError => .error .valueError
+
+theorem vblk_notTarget (s : String) :
+    notTarget? s = if vblkStartsNot s && !vblkSixth s then some (String.ofList (s.toList.drop 5)) else none := by
+  unfold notTarget? vblkStartsNot vblkSixth
+  split
+  · next rest heq =>
+    simp only [heq, List.drop_succ_cons, List.drop_zero, Bool.true_and]
+    cases rest with
+    | nil => simp
+    | cons a tl =>
+      by_cases ha : a = '_'
+      · subst ha; simp
+      · simp [ha]
+  · next hne =>
+    split
+    · next rest heq => exact absurd heq (hne rest)
+    · simp
+
+theorem vblk_name (c : Circ) (s : String) (r : Ref) (hr : vblkStr? r = some s)
+    (hc : vblkClassify c r = vblkNameArg c s) :
+    vblkRun c r (Gen.Tr.validateBlkTree (vblkClassify c r)) = validateName c s := by
+  rw [hc]
+  unfold Gen.Tr.validateBlkTree validateName vblkNameArg
+  simp only [Bool.false_eq_true, if_false, if_true]
+  by_cases h1 : (startsUnderscore s && !(c.kind s).isSome) = true
+  · simp only [h1, if_true]
+    by_cases h2 : (s == "_ctrl") = true
+    · simp only [h2, if_true, vblkRun, hr]
+      cases addBlock c s .s true <;> rfl
+    · simp only [h2, if_false, Bool.false_eq_true]
+      rw [vblk_notTarget]
+      by_cases h3 : (vblkStartsNot s && !vblkSixth s) = true
+      · simp only [h3, if_true, vblkRun, hr]
+        cases addBlock c s (.c .not) true with
+        | error e => rfl
+        | ok c1 => cases connect c1 s [.name (String.ofList (s.toList.drop 5))] [] <;> rfl
+      · simp only [h3, if_false, Bool.false_eq_true, vblkRun, hr]
+  · simp only [h1, if_false, Bool.false_eq_true, vblkRun, hr]
+
+/-- the model's resolver IS the translated decision tree of `Circuit._validate_blk`, run on the
+    classification of the reference, with the model's block / Const constructors as actions:
+    same tests in the same order -- in particular membership of the OBJECT in the circuit decides
+    for block objects, and the inverter is connected to `blk.removeprefix('_not_')` -/
+theorem translated_validate_blk_is_model (c : Circ) (r : Ref) :
+    vblkRun c r (Gen.Tr.validateBlkTree (vblkClassify c r)) = validateBlk c r := by
+  cases r with
+  | const v => rfl
+  | name s => exact vblk_name c s _ rfl rfl
+  | obj f n =>
+    cases f <;> cases h : (c.kind n).isSome <;>
+      simp [vblkClassify, Gen.Tr.validateBlkTree, validateBlk, vblkRun, h]
+  | val v =>
+    cases v with
+    | undef => rfl
+    | tup l => rfl
+    | lst l => rfl
+    | atom a =>
+      cases a with
+      | none => rfl
+      | num q k => rfl
+      | str s => exact vblk_name c s _ rfl rfl
 
 end Edzed.TrTie
